@@ -56,9 +56,8 @@ func runSepCases(seed uint64, n int, known bool, outDir string, extra map[string
 	pool := []string{"0", "1", "2", "9", "10", "12", "100", "1200", "1000000", "-1", "-10", "-100", "-2500", ".5", "0.5", "-.5", "-0.5", "1.5", "12.25",
 		"-3.75", "1e3", "1e-3", "2.5e4", "5e30", "1e10", "0.001", "0.0001", "-0.0001", "100.5", "1.00", "10.0", "-0", "0.0", "00", "-00", "000", "+5", "1E2",
 		"123456789", "0.1e1", "5.", "-5.", "1e+2", "3e0"}
-	if known { // N15: exponents that are multiples of 100 are mangled by the "00" -> "e2" rewrite (open finding)
-		pool = append(pool, "5e300", "1e100", "1e-200")
-	}
+	// exponents that are multiples of 100 (K70 / N15: the "00" -> "e2" rewrite used to mangle them; repaired in /repo)
+	pool = append(pool, "5e300", "1e100", "1e-200")
 	coords, bad := 0, 0
 	for k := 0; k < n; k++ {
 		ln := 1 + r.Intn(10)
